@@ -79,12 +79,22 @@ func (P *Program) verifyFunction(con *Contract) (res *FuncResult) {
 	fr.entry = st.clone()
 	g.entry = fr.entry
 	// known dynamic types from "requires dyn(p) == T"
-	for _, rq := range con.Requires {
-		if de, ok := rq.Expr.(*SDynEq); ok && !de.Neg {
-			if id, ok := de.X.(*SIdent); ok {
-				g.knownDyn[id.Name] = g.resolveType(de.T, con.Pkg)
+	var walkDyn func(e SExpr)
+	walkDyn = func(e SExpr) {
+		switch x := e.(type) {
+		case *SDynEq:
+			if id, ok := x.X.(*SIdent); ok && !x.Neg {
+				g.knownDyn[id.Name] = g.resolveType(x.T, con.Pkg)
+			}
+		case *SBinary:
+			if x.Op == "&&" {
+				walkDyn(x.X)
+				walkDyn(x.Y)
 			}
 		}
+	}
+	for _, rq := range con.Requires {
+		walkDyn(rq.Expr)
 	}
 	// requires
 	for _, rq := range con.Requires {
